@@ -165,7 +165,7 @@ pub fn eval_from_bytes_bitcoin(bytes: &[u8], version_id: u8) -> EvaluatedScript 
         EvaluatedScript::new(address, ScriptPattern::Pay2Taproot)
     } else if script.is_witness_program() {
         EvaluatedScript::new(address, ScriptPattern::WitnessProgram)
-    } else if script.is_multisig() {
+    } else if is_multisig(script) {
         EvaluatedScript::new(address, ScriptPattern::Pay2MultiSig)
     } else {
         EvaluatedScript::new(address, ScriptPattern::NotRecognised)
@@ -193,6 +193,50 @@ fn op_return_data(bytes: &[u8]) -> &[u8] {
             &bytes[start..]
         }
         _ => bytes.get(2..).unwrap_or(&[]),
+    }
+}
+
+/// Checks for a bare m-of-n multisig script:
+/// `OP_m <pubkey>{n} OP_n OP_CHECKMULTISIG` with 1 <= m <= n <= 16 and nothing else.
+/// (`Script::is_multisig` also accepts scripts whose keys are not followed by a number opcode
+/// and counts the keys in a `u8`, which overflows for scripts with more than 255 pushes.)
+fn is_multisig(script: &Script) -> bool {
+    fn pushnum(op: Opcode) -> Option<usize> {
+        match op.classify(opcodes::ClassifyContext::Legacy) {
+            opcodes::Class::PushNum(n) if n >= 1 => Some(n as usize),
+            _ => None,
+        }
+    }
+
+    let mut instructions = script.instructions();
+    let required_sigs = match instructions.next() {
+        Some(Ok(Instruction::Op(op))) => match pushnum(op) {
+            Some(n) => n,
+            None => return false,
+        },
+        _ => return false,
+    };
+
+    let mut num_pubkeys: usize = 0;
+    let total_keys = loop {
+        match instructions.next() {
+            Some(Ok(Instruction::PushBytes(_))) => num_pubkeys += 1,
+            Some(Ok(Instruction::Op(op))) => match pushnum(op) {
+                Some(n) => break n,
+                None => return false,
+            },
+            _ => return false,
+        }
+    };
+    if total_keys != num_pubkeys || required_sigs > total_keys {
+        return false;
+    }
+
+    match instructions.next() {
+        Some(Ok(Instruction::Op(op))) if op == opcodes::all::OP_CHECKMULTISIG => {
+            instructions.next().is_none()
+        }
+        _ => false,
     }
 }
 
